@@ -503,6 +503,38 @@ func c09Run(c *Ctx, idx int, rng *rand.Rand, sc *c09Scenario, dir string) {
 	}
 	checkCompletion("end")
 	checkClaims("end")
+	// Received() about a version the receiver has never seen a byte of (the same
+	// name used again for new content): whatever it holds or has delivered under that
+	// name, it holds no part of this one
+	synctest.Wait()
+	time.Sleep(5 * time.Second)
+	synctest.Wait()
+	for _, cf := range files {
+		psize := int64(1 + rng.Intn(3000))
+		if rng.Intn(2) == 0 && len(cf.versions) > 0 {
+			psize = int64(len(cf.versions[len(cf.versions)-1])) // same size as the last version
+		}
+		phash := md5hex(randBytes(rng, psize))
+		for _, h := range cf.hashes {
+			if h == phash { // tiny files: the invented content can be the real one
+				phash = md5hex([]byte("a version nobody ever wrote: " + cf.name))
+			}
+		}
+		var qs []sts.Binned
+		for k := 0; k < 1+rng.Intn(3); k++ {
+			qb := rng.Int63n(psize)
+			qe := qb + 1 + rng.Int63n(psize-qb)
+			if k == 0 && rng.Intn(2) == 0 {
+				qb, qe = 0, psize
+			}
+			qs = append(qs, &desc{Name: cf.name, Hash: phash, Size: psize, Time: time.Now().Add(-time.Duration(rng.Intn(3000)) * time.Second), Beg: qb, End: qe, Send: psize})
+		}
+		res.Count("received_queries_about_unseen_version", 1)
+		if n := rs.Stage.Received(qs); n > 0 {
+			viol("claims-subset-of-truth", "received-counts-part-of-unseen-version", fmt.Sprintf("%s: Received() reports %d leading part(s) of a version (hash %s, size %d) of which no byte was ever sent; file state before: done=%v", cf.name, n, phash, psize, cf.done))
+			break
+		}
+	}
 	key := fmt.Sprintf("%v|%d|%v|%v", sc.Sizes, len(sc.Ops), concurrent, overlapping)
 	if len(sc.Ops) >= 2 {
 		res.NonTrivial(key)
